@@ -345,6 +345,8 @@ def refine(expr: ast.expr, truth: bool, state: State, atom: Callable[[ast.expr, 
             return _dedup(out)
     if isinstance(expr, ast.UnaryOp) and isinstance(expr.op, ast.Not):
         return refine(expr.operand, not truth, state, atom)
+    if isinstance(expr, ast.Call) and isinstance(expr.func, ast.Name) and expr.func.id == "bool" and len(expr.args) == 1 and not expr.keywords:
+        return refine(expr.args[0], truth, state, atom)          # bool(x) is true exactly when x is
     return _dedup(list(atom(expr, truth, state)))
 
 
